@@ -10,7 +10,7 @@
 (*   "unknown" unrecognised option, extra positional   error at end   -> 3 *)
 (*   "dir"     the target (v: "ok" | "missing"); a second one is "unknown" *)
 (*   "output"  v: "ok" | "noparent" | "isdir" | "devfull"   (last wins)    *)
-(*   "sarif" | "sonar" | "dojo"   v: "ok" | "missing" | "dup" | "two"      *)
+(*   "sarif" | "sonar" | "hotspots" | "dojo"   v: "ok" | "missing" | "dup" | "two" *)
 (*   "flag"    harmless option                                            *)
 (* env.ai: "none" | "half" | "both" (AI client configuration)              *)
 (*                                                                         *)
@@ -21,7 +21,7 @@
 EXTENDS Integers, Sequences, FiniteSets
 
 St0 == [dir |-> "none", incl |-> FALSE, excl |-> FALSE, unknown |-> FALSE,
-        output |-> "none", sarif |-> "none", sonar |-> "none", dojo |-> "none"]
+        output |-> "none", sarif |-> "none", sonar |-> "none", hotspots |-> "none", dojo |-> "none"]
 
 RECURSIVE Parse(_, _)
 Parse(toks, st) ==
@@ -38,6 +38,7 @@ Parse(toks, st) ==
          [] t.k = "output"  -> Parse(r, [st EXCEPT !.output = t.v])
          [] t.k = "sarif"   -> Parse(r, [st EXCEPT !.sarif = t.v])
          [] t.k = "sonar"   -> Parse(r, [st EXCEPT !.sonar = t.v])
+         [] t.k = "hotspots" -> Parse(r, [st EXCEPT !.hotspots = t.v])
          [] t.k = "dojo"    -> Parse(r, [st EXCEPT !.dojo = t.v])
          [] OTHER           -> Parse(r, st)
 
@@ -48,9 +49,9 @@ ExpectedExit(toks, env) ==
   IF p.exit # 99 THEN p.exit
   ELSE LET s == p.st IN
        IF s.dir = "missing" THEN 1
-       ELSE IF BadFile(s.sarif) \/ BadFile(s.sonar) \/ BadFile(s.dojo) THEN 1
+       ELSE IF BadFile(s.sarif) \/ BadFile(s.sonar) \/ BadFile(s.hotspots) \/ BadFile(s.dojo) THEN 1
        ELSE IF env = "half" THEN 3
-       ELSE IF s.output \in {"noparent", "isdir", "devfull"} THEN 2
+       ELSE IF s.output \in {"noparent", "isdir", "devfull"} THEN 2      \* "ok", "devnull", "fifo": the report is delivered
        ELSE 0
 
 \* does the run get as far as writing a report, and is the report then on disk?
